@@ -55,5 +55,27 @@ def specSet : SpecFn := fun dom _ op args _ =>
       return out)
   | _, _ => none
 
+/-- basic numeric operations on integers with +inf (used by the policy family; the arith
+    plugin, registered before this one, supersedes it) -/
+def numOp (op : String) (x y : Val) : Except String Val :=
+  match op, x, y with
+  | "PLUS", .i a, .i b => .ok (.i (a + b))
+  | "PLUS", .inf, _ => .ok .inf
+  | "PLUS", _, .inf => .ok .inf
+  | "MAXIMUM", .i a, .i b => .ok (.i (max a b))
+  | "MAXIMUM", .inf, _ => .ok .inf
+  | "MAXIMUM", _, .inf => .ok .inf
+  | "MINIMUM", .i a, .i b => .ok (.i (min a b))
+  | "MINIMUM", .inf, v => .ok v
+  | "MINIMUM", v, .inf => .ok v
+  | _, _, _ => .error "TYPE_MISMATCH"
+
+def specNumBasic : SpecFn := fun _ _ op args _ =>
+  match op, args with
+  | "PLUS", [(_, a), (_, b)] => some (pointwise2 (numOp "PLUS") a b)
+  | "MAXIMUM", [(_, a), (_, b)] => some (pointwise2 (numOp "MAXIMUM") a b)
+  | "MINIMUM", [(_, a), (_, b)] => some (pointwise2 (numOp "MINIMUM") a b)
+  | _, _ => none
+
 end Ops
 end Meddly
